@@ -382,7 +382,9 @@ def monitor(events, info, passes):
                     if got is None or abs(got - want) > 1e-4 * max(1.0, abs(want)):
                         problems.append(("us-value", f"{u['name']}: measure_distance() = {text}, expected {want:.4f} (echoes {seg_echoes})"))
         for a, b2 in zip(trig_times, trig_times[1:]):
-            if a // 1000 > 0 and (b2 - a) < 60000 - 1000:
+            # "once the millisecond clock is running": a predecessor trigger stamped millis()==0 straight after reset is
+            # excused by the property text; the same stamp at the 2^32 ms roll-over (event times are 64-bit) is not
+            if a >= 1000 and (b2 - a) < 60000 - 1000:
                 problems.append(("us-min-interval", f"{u['name']}: two trigger pulses {((b2 - a) / 1000):.3f} ms apart (at {a / 1000:.3f} ms and {b2 / 1000:.3f} ms)"))
                 break
     return problems, counts
@@ -430,7 +432,9 @@ def main() -> int:
     sd = seed()
     n = 260 if t == "quick" else 2000
     passes = 12 if t == "quick" else 40
-    cases = [(i, sd, passes, (0, 0, 1000, 5)[i % 4]) for i in range(n)]
+    # start values of the millisecond clock; the last two put the 32-bit roll-over (2^32 ms) a few tens of milliseconds ahead
+    T0 = (0, 0, 1000, 5, 2 ** 32 - 30, 2 ** 32 - 130, 0, 2 ** 32 - 61)
+    cases = [(i, sd, passes, T0[i % len(T0)]) for i in range(n)]
     for case, st, res in run_cases(run_case, cases):
         if st != "ok":
             rep.inconclusive_because(f"case {case} failed: {res[-300:]}")
@@ -463,12 +467,12 @@ def main() -> int:
     if rep.counters.get("button_passes", 0) == 0 or rep.counters.get("pot_reads", 0) == 0 or rep.counters.get("us_calls", 0) == 0:
         rep.inconclusive_because("a sensor monitor was never reached: " + json.dumps({k: rep.counters.get(k, 0) for k in ("button_passes", "pot_reads", "us_calls")}))
     rep.rule = ("scripts with 0-2 buttons (with/without on_click), 0-1 potentiometer, 0-1 ultrasonic sensor, reads in setup() and 1-3 times per "
-                "pass, sleeps of {0,1,30,59,60,61,200} ms between calls, clock starting at {0, 5, 1000} ms; input tapes: button levels (bursts, held, "
+                "pass, sleeps of {0,1,30,59,60,61,200} ms between calls, clock starting at {0, 5, 1000} ms or just below the 32-bit roll-over (2^32 - {30, 61, 130} ms); input tapes: button levels (bursts, held, "
                 "bouncing, pressed at start-up, idle), ADC values, echo times incl. 0 and > 30000; monitors count digitalRead per pass, on_click runs "
                 "vs rising edges of the sampled signal, is_pressed() prints vs the sample, analogRead freshness and value, trigger pulses per call, "
                 "trigger spacing, retry/fallback value; host Button/Pot/Ultrasonic replay on the same tapes when signals start released. "
                 "non-trivial = at least one monitored pass/read/call")
-    rep.assumptions = ["the 60 ms rule is judged only between triggers whose predecessor happened at millis() > 0", "distance compared within 1e-4 relative (float32)"]
+    rep.assumptions = ["the 60 ms rule is judged between triggers whose predecessor happened after the first millisecond since reset (the property's 'once the millisecond clock is running'); roll-over instants are judged", "distance compared within 1e-4 relative (float32)", "unsigned long is 32 bits wide in sketch code (mock core, -DREDU_AVR_LONG): millis() wraps at 2^32"]
     return rep.finish(min_distinct=40)
 
 
